@@ -29,10 +29,13 @@ package types
 //@   property C01 C03
 //@   observe prov := call signatureProvider
 //@   observe dprov := call DefaultSignaturePayloadProvider
+//@   observe ka := call KeyAddress
 //@   ensures [basic] err == nil ==> (len(sh.ProposerAddress) > 0 && len(sh.Signature) > 0
 //@                       && val(sh.ProposerAddress) == val(sh.Signer.Address) && SigOK(sh) && sh.Signer.PubKey != nil)
+//@   ensures [key-is-address] err == nil ==> AddrOf(pkraw(sh.Signer.PubKey.val)) == val(sh.ProposerAddress)
 //@   ensures [complete] len(sh.ProposerAddress) > 0 && len(sh.Signature) > 0 && val(sh.ProposerAddress) == val(sh.Signer.Address) && SigOK(sh)
-//@                       ==> err == nil || (prov && prov.res1 != nil) || (dprov && dprov.res1 != nil)
+//@                       && sh.Signer.PubKey != nil && AddrOf(pkraw(sh.Signer.PubKey.val)) == val(sh.Signer.Address)
+//@                       ==> err == nil || (prov && prov.res1 != nil) || (dprov && dprov.res1 != nil) || (ka && ka.res0 == nil)
 
 //@ pred DataMatchesHeader(header, data) := (data.Metadata != nil ==> (header.BaseHeader.ChainID == data.Metadata.ChainID
 //@                       && header.BaseHeader.Height == data.Metadata.Height && TimeOfU64(header.BaseHeader.Time) == TimeOfU64(data.Metadata.Time)))
@@ -52,3 +55,29 @@ package types
 //@ func (d *Data) Hash() (r)
 //@   trusted
 //@   ensures [hash] val(r) == HashData(TxsId(d.Txs), DMetaOf(d)) && len(r) == 32
+
+// ---- C03: who signed it -------------------------------------------------------------------
+
+// the address of a key is sha256 of its raw bytes
+//@ func KeyAddress(pubKey) (r)
+//@   property C03 C19
+//@   requires [non-nil] pubKey != nil
+//@   ensures [address] r != nil ==> val(r) == AddrOf(pkraw(pubKey.val)) && len(r) == 32
+
+// Genuine(sh, addr): signed under the key whose address is addr
+//@ pred GenuineHeader(sh, addr) := SigOK(sh) && AddrOf(pkraw(sh.Signer.PubKey.val)) == addr && val(sh.ProposerAddress) == addr
+
+// go-header calls Validate() on every header received over P2P; it must be SignedHeader's own
+// method (which checks the signature), not the one promoted from the embedded Header.
+//@ methodset *SignedHeader Validate declared-on SignedHeader property C03
+
+//@ func (sh *SignedHeader) Validate() (err)
+//@   property C03
+//@   ensures [p2p-validate] err == nil ==> SigOK(sh) && AddrOf(pkraw(sh.Signer.PubKey.val)) == val(sh.ProposerAddress) && len(sh.Signature) > 0
+
+//@ func (sh *SignedHeader) Verify(untrstH) (err)
+//@   property C03
+//@   requires [non-nil] untrstH != nil
+//@   ensures [p2p-verify] err == nil ==> val(untrstH.ProposerAddress) == val(sh.ProposerAddress)
+//@   ensures [p2p-verify-adjacent] err == nil && U64Inc2(sh.BaseHeader.Height) == untrstH.BaseHeader.Height ==> val(untrstH.LastHeaderHash) == HashHdr(HdrOf(sh))
+//@ pred U64Inc2(x) := ite(x + 1 < 18446744073709551616, x + 1, 0)
